@@ -1790,6 +1790,27 @@ func (c *Ctx) overlayRule(rule string) {
 							return (statOf(isKey)(t.Args[0]) && statOf(isDst)(t.Args[1])) || (statOf(isKey)(t.Args[1]) && statOf(isDst)(t.Args[0]))
 						})
 						okKey = okKey && c.ReachOf(mu).Implies(sameFile)
+						// … and every entry is asked: an iteration of the loop over the entries that does not hide its entry has seen
+						// os.Stat fail or os.SameFile say no – no other filter (entry kind, name, extension) stands before the identity
+						// test: `if !entry.Type().IsRegular() { continue }` passes over a symbolic link to the previous output
+						notSame := c.M(false, func(t *core.Term) bool { return t.IsCallTo("os.SameFile") })
+						statErr := c.M(false, isNilCmp(func(x *core.Term) bool {
+							return x.Kind == "extract" && x.Name == "1" && x.Args[0].IsCallTo("os.Stat")
+						}))
+						for head, body := range allLoops(helper) {
+							if !body[mu.Block()] {
+								continue
+							}
+							av := c.ReachAvoid(helper, map[*ssa.BasicBlock]bool{mu.Block(): true})
+							for _, lp := range head.Preds {
+								if !body[lp] || lp == mu.Block() {
+									continue
+								}
+								be := av.BackEdgeCond(lp, head)
+								r.Check(rule, FnKey(helper)+":every-entry-compared-by-identity", c.InstrPos(mu), be.Implies(notSame, statErr),
+									"an entry of the setup file's directory can be passed over without having been compared with the output path by identity: "+c.failing(be, notSame, statErr))
+							}
+						}
 						v := c.O.Of(mu.Value)
 						okVal = v.Contains(func(s *core.Term) bool { return s.Is("const", `"package "`) }) &&
 							v.Contains(func(s *core.Term) bool {
@@ -1815,7 +1836,7 @@ func (c *Ctx) fsReadInventory(rule string) {
 	table := map[string]int{
 		"parser:os.Stat": 5, "parser:golang.org/x/tools/go/packages.Load": 1, "parser:go/parser.ParseFile": 1,
 		// the entries of the setup file's directory, each stat'ed and compared by identity with the output path (F59, F63); opens nothing
-		"parser:os.ReadDir": 1,
+		"parser:os.ReadDir":                            1,
 		"generator:golang.org/x/tools/imports.Process": 1,
 	}
 	seen := map[string]int{}
@@ -2400,7 +2421,9 @@ func (c *Ctx) pointerDescentRule(rule string) {
 			lhs = dm.Params[1].Name()
 		}
 		isLHS := func(t *core.Term) bool { return (t.Kind == "param" || t.Kind == "fv") && t.Name == lhs }
-		typeOfLHS := func(t *core.Term) bool { return (t.IsCallTo(invExprType) || t.Kind == "invoke" && t.Name == invExprType) && isLHS(t.Args[0]) }
+		typeOfLHS := func(t *core.Term) bool {
+			return (t.IsCallTo(invExprType) || t.Kind == "invoke" && t.Name == invExprType) && isLHS(t.Args[0])
+		}
 		notPtr := c.M(false, func(t *core.Term) bool { return t.IsCallTo(fnIsPtr) && typeOfLHS(t.Args[0]) })
 		notStructBelow := c.M(false, func(t *core.Term) bool {
 			return t.IsCallTo(fnIsStruct) && t.Args[0].IsCallTo(fnDerefPtr) && typeOfLHS(t.Args[0].Args[0])
